@@ -3,6 +3,7 @@ import OV.Model.C05Unit
 import OV.Model.C05Shape
 import OV.Model.C05Linalg
 import OV.Model.C05More
+import OV.Model.C05Chain
 import OV.Model.C09Shape
 import OV.Drivers.Loop
 /-! Line-protocol driver for C05: `C05 <family> key=value …` → `nofire` | `raise` | `fire <replacement> hyp=<0|1>`.
@@ -270,6 +271,52 @@ def handle1 (args : List String) : String :=
      | .nofire => "nofire")
   | _ => "badline"
 
+/-! ### rule-set driver on a chain host (`OV.Model.C05Chain`) -/
+def parseOpd (s : String) : Chain.Opd Int :=
+  if s == "-" then .absent
+  else if s == "n" then .dyn 0
+  else if s.startsWith "c" then ((s.drop 1).toString.toInt?.map .const).getD (.dyn 0)
+  else if s.startsWith "g" then ((s.drop 1).toString.toInt?.map .ginit).getD (.dyn 0)
+  else .dyn 0
+
+def parseMOpd (s : String) : Chain.MOpd Int :=
+  if s.startsWith "c" then ((s.drop 1).toString.toInt?.map .const).getD (.dyn 0) else .dyn 0
+
+def parseCOp (s : String) : Option (Chain.COp Int) :=
+  match s.splitOn ":" with
+  | ["R"] => some .relu
+  | ["C", lo, hi] => some (.clip (parseOpd lo) (parseOpd hi))
+  | ["N", c] => some (.mn (parseMOpd c))
+  | ["X", c] => some (.mx (parseMOpd c))
+  | _ => none
+
+def showOpd : Chain.Opd Int → String
+  | .absent => "-" | .const v => s!"c{v}" | .ginit v => s!"g{v}" | .dyn _ => "n"
+def showMOpd : Chain.MOpd Int → String
+  | .const v => s!"c{v}" | .dyn _ => "n"
+def showCOp : Chain.COp Int → String
+  | .relu => "R" | .clip lo hi => s!"C:{showOpd lo}:{showOpd hi}" | .mn c => s!"N:{showMOpd c}" | .mx c => s!"X:{showMOpd c}"
+def showChain (l : List (Chain.Node Int)) : String :=
+  ";".intercalate (l.map (fun n => showCOp n.op ++ (if n.shared then "*" else "")))
+
+/-- `chain ops=<op;op;…> sh=<0|1,…> order=<permutation of 0..7>`: two successive `apply_to_model` calls of one rule set. -/
+def handleChain (a : List String) : String :=
+  let ops := ((getS a "ops").splitOn ";").mapM parseCOp
+  let sh := (parseIntList (getS a "sh")).getD []
+  let order := (parseIntList (getS a "order")).getD [0, 1, 2, 3, 4, 5, 6, 7]
+  match ops with
+  | none => "badline"
+  | some ops =>
+    if sh.length != ops.length then "badline" else
+    let all := Chain.chainRules (0 : Int)
+    let rules := order.filterMap (fun i => all[i.toNat]?)
+    let chain : List (Chain.Node Int) := (ops.zip sh).map (fun (o, s) => { op := o, shared := s != 0 })
+    let n1 := Chain.count rules chain
+    let r1 := Chain.sweep rules chain
+    let n2 := Chain.count rules r1
+    let r2 := Chain.sweep rules r1
+    if n1 == 0 then "nofire" else s!"fire n={n1} n2={n2} ops={showChain r2} hyp=1"
+
 /-- Rules with `remove_nodes=True` whose pattern has an inner node: the matcher (`_valid_to_replace`) rejects the
 match when an inner value is a graph output or has a consumer outside the match — before `check()` runs. -/
 def multiNodeRemoving : List String :=
@@ -277,6 +324,7 @@ def multiNodeRemoving : List String :=
 
 def handle (args : List String) : String :=
   match args with
+  | "chain" :: a => handleChain a
   | fam :: a => if getBool a "extra" && multiNodeRemoving.contains fam then "nofire" else handle1 args
   | [] => "badline"
 
